@@ -16,6 +16,11 @@ import (
 
 const symxPath = "github.com/pinealctx/neptune/zzsymx"
 
+type xxEntry struct {
+	key []*Term
+	val *Term
+}
+
 type externFn func(in *Interp, caller *frame, fn *ssa.Function, args []value) value
 
 func stackTrace() string { return string(debug.Stack()) }
@@ -676,6 +681,29 @@ func (in *Interp) initExterns() {
 	E["google.golang.org/grpc/status.Errorf"] = func(in *Interp, fr *frame, _ *ssa.Function, a []value) value {
 		msg, _ := in.sprintf(fr, a[1].(Str), a[2].(Slice))
 		return in.newError(msg)
+	}
+	xx := func(in *Interp, b []*Term) value {
+		for _, e := range in.xxMemo {
+			if len(e.key) != len(b) {
+				continue
+			}
+			eq := ts.True
+			for i := range b {
+				eq = ts.And(eq, ts.Eq(e.key[i], b[i]))
+			}
+			if in.branch(eq) {
+				return e.val
+			}
+		}
+		v := in.newInput("xxhash", 64, "uint64")
+		in.xxMemo = append(in.xxMemo, xxEntry{append([]*Term(nil), b...), v})
+		return v
+	}
+	E["github.com/cespare/xxhash/v2.Sum64"] = func(in *Interp, _ *frame, _ *ssa.Function, a []value) value {
+		return xx(in, sliceBytes(a[0].(Slice)))
+	}
+	E["github.com/cespare/xxhash/v2.Sum64String"] = func(in *Interp, _ *frame, _ *ssa.Function, a []value) value {
+		return xx(in, a[0].(Str).b)
 	}
 	E["os.Getenv"] = func(in *Interp, _ *frame, _ *ssa.Function, a []value) value { return Str{} }
 }
